@@ -35,7 +35,7 @@ RULE = (
     "of the clean output, and a clean call on the same closure follows. (3) Schedules: 2-3 threads with drawn "
     "create/use programs start from cold caches under a deterministic line-granularity scheduler (sys.settrace in "
     "src/kio, token passing); the interleaving is a drawn list of <=3 preemptions (global step, target thread); "
-    "additionally ONE preemption is swept over EVERY step of fixed two/three-thread programs (warm and cold caches, two different values of one class) exhaustively, and EVERY PAIR of preemptions (park thread 0 at k1, park thread 1 at k2, resume 0, then 1) is swept over a warm two-thread program whose values hold multi-item arrays. Non-trivial = history with a failed call "
+    "additionally ONE preemption is swept over EVERY step of fixed two/three-thread programs (warm and cold caches, two different values of one class) exhaustively, and EVERY PAIR of preemptions (park thread 0 at k1, park thread 1 at k2, resume 0, then 1) is swept over a warm two-thread program whose values hold multi-item arrays. (4) Orders: in 4 (quick) / 14 (thorough) fresh processes the readers and writers of ALL 1629 classes are created and used in a different order (forward, reverse, seeded shuffles); per class up to 12 fixed calls (decode of a populated, a zero, a conforming explicit-default/explicit-null and up to three null-in-non-nullable encodings; encode of the corresponding instances) must have the same outcome (value or exception type) in every order; a difference is bisected to the earlier class that causes it. Non-trivial = history with a failed call "
     "followed by a successful call on the same closure / fault k strictly inside the call / schedule with >=1 "
     "preemption landing inside entity_reader/entity_writer construction or read_entity/write_entity; distinct by hash."
 )
@@ -818,6 +818,107 @@ def sweep_tasks(ctx: Ctx, trees_json, shards: int) -> list:
     return tasks
 
 
+# --------------------------------------------------------------------------- (4) creation/use orders in fresh processes
+
+
+def _run_order_child(spec: str, only: list[str] | None = None) -> dict:
+    import subprocess
+    import sys
+    import tempfile
+
+    with tempfile.NamedTemporaryFile(prefix="kv-c19-order-", suffix=".json", delete=False) as fh:
+        out = fh.name
+    try:
+        cmd = [sys.executable, "-m", "kv.c19_orders", out, spec] + (["only=" + ",".join(only)] if only else [])
+        r = subprocess.run(cmd, capture_output=True, text=True, cwd=os.path.dirname(os.path.dirname(os.path.dirname(os.path.abspath(__file__)))))
+        if r.returncode != 0:
+            raise HarnessError(f"order child {spec[:60]} failed: {r.stderr[-800:]}")
+        with open(out) as f:
+            return json.load(f)
+    finally:
+        try:
+            os.unlink(out)
+        except OSError:
+            pass
+
+
+def _order_worker(spec: str) -> tuple[str, dict]:
+    return spec, _run_order_child(spec)
+
+
+def order_pair_differs(first: str | None, then: str, label: str) -> tuple[str, str]:
+    """-> (outcome of `then` alone, outcome of `then` after `first` was created and used), each in a fresh process."""
+    alone = _run_order_child("list:" + then)[then].get(label, "<no such call>")
+    after = _run_order_child("list:" + first + "," + then, only=[then])[then].get(label, "<no such call>") if first else alone
+    return alone, after
+
+
+def order_stage(ctx: Ctx, total: Report) -> None:
+    specs = ["forward", "reverse", f"shuffle:{ctx.subseed('order', 0)}", f"shuffle:{ctx.subseed('order', 1)}"]
+    if not ctx.quick:
+        specs += [f"shuffle:{ctx.subseed('order', i)}" for i in range(2, 12)]
+    results = dict(pool_map(_order_worker, specs))
+    base_spec = specs[0]
+    base = results[base_spec]
+    rep = Report(prop=ID, level="exploration", rule=RULE)
+    c = rep.extra.setdefault("counters", {})
+    c["order_processes"] = len(specs)
+    reported: set = set()
+    for path, calls in base.items():
+        for label, want in calls.items():
+            rep.evaluations += len(specs)
+            c["order_calls_compared"] = c.get("order_calls_compared", 0) + len(specs)
+            rep.nontrivial.add(case_hash(("order", path, label)))
+            for spec in specs[1:]:
+                got = results[spec].get(path, {}).get(label)
+                if got == want:
+                    continue
+                kind = label.split(":")[0]
+                sig = f"order:{'decode' if kind == 'dec' else 'encode'}-differs:{label.split(':')[1].rstrip('0123456789')}"
+                c["order_differences"] = c.get("order_differences", 0) + 1
+                if sig in reported:  # one minimised report per signature: the bisection costs ~12 fresh processes
+                    continue
+                reported.add(sig)
+                # which of the two orders is the deviating one, and which earlier class causes it?
+                alone = _run_order_child("list:" + path)[path].get(label)
+                bad_spec = spec if got != alone else base_spec
+                culprit = _bisect_culprit(bad_spec, path, label, alone)
+                msg = (f"{path} {label}: outcome {want[:160]!r} in creation order {base_spec!r} but {got[:160]!r} in order {spec!r}; "
+                       f"alone in a fresh process: {str(alone)[:160]!r}; minimal history: {culprit!r} created and used first")
+                rep.add_failure(Failure(sig, msg, {"kind": "order", "first": culprit, "then": path, "label": label}, 2))
+    if len(rep.samples) < 2:
+        any_path = next(iter(base))
+        rep.samples.append({"orders": specs, "class": any_path, "calls": {k: v[:80] for k, v in base[any_path].items()}})
+    total.merge(rep)
+
+
+def _bisect_culprit(spec: str, path: str, label: str, alone: str | None) -> str | None:
+    from ..c19_orders import order_of
+
+    order = order_of(spec)
+    prefix = order[: order.index(path)]
+
+    def differs(pre: list[str]) -> bool:
+        if not pre:
+            return False
+        got = _run_order_child("list:" + ",".join(pre + [path]), only=[path])[path].get(label)
+        return got != alone
+
+    if not differs(prefix):
+        return None
+    while len(prefix) > 1:
+        half = len(prefix) // 2
+        a, b = prefix[:half], prefix[half:]
+        if differs(b):
+            prefix = b
+        elif differs(a):
+            prefix = a
+        else:
+            break  # needs classes from both halves: keep the whole prefix's last element as a hint
+    return prefix[-1] if len(prefix) == 1 else ",".join(prefix[-3:])
+
+
+
 def run(ctx: Ctx) -> Report:
     total = Report(prop=ID, level="exploration", rule=RULE)
     shards = 16
@@ -849,6 +950,8 @@ def run(ctx: Ctx) -> Report:
         total.merge(rep)
     for rep in pool_map(_pair_sweep_worker, pair_sweep_tasks(ctx, shards)):
         total.merge(rep)
+    # (4) creation/use orders, each in a fresh process
+    order_stage(ctx, total)
     c = total.extra.get("counters", {})
     if c.get("preemptions_landed", 0) < c.get("schedules", 0) // 2:
         raise HarnessError(f"generator health: only {c.get('preemptions_landed')} preemptions landed in {c.get('schedules')} schedules")
@@ -869,6 +972,12 @@ def replay(case):
     if kind == "schedule":
         programs = [[tuple(op) for op in p] for p in case["programs"]]
         return eval_schedule(case["items"], programs, [tuple(p) for p in case["preemptions"]])[0]
+    if kind == "order":
+        alone, after = order_pair_differs(case.get("first"), case["then"], case["label"])
+        if alone != after:
+            return [(f"order:{'decode' if case['label'].startswith('dec') else 'encode'}-differs:{case['label'].split(':')[1].rstrip('0123456789')}",
+                     f"{case['then']} {case['label']}: {alone[:200]!r} alone, {after[:200]!r} after {case.get('first')}")]
+        return []
     if kind == "schedule-abs":
         programs = [[tuple(op) for op in p] for p in case["programs"]]
         return run_schedule(_schedule_items(case["items"]), programs, [tuple(p) for p in case["preemptions"]], cold=case.get("cold", True))[0]
